@@ -57,14 +57,29 @@ class ShardWriterNP(ShardWriterBase):
 
             values (dict[str, npt.NDArray[np.generic]]): Attribute values.
         """
+        # Validate before buffering anything (all or nothing). Otherwise the
+        # buffers could end up with different lengths or with values which
+        # cannot be saved (or loaded) without pickling.
+        attributes = self.dataset_structure.saved_data_description
+        expected_names = {attribute.name for attribute in attributes}
+        if set(values) != expected_names:
+            raise ValueError(f"Expected exactly the attributes "
+                             f"{expected_names} got {set(values)}")
+        copies = {name: np.copy(value) for name, value in values.items()}
+        for attribute in attributes:
+            text: bool = attribute.dtype in ["str", "bytes"]
+            if (copies[attribute.name].dtype.kind in "SU") != text:
+                raise ValueError(
+                    f"Attribute {attribute.name} of dtype {attribute.dtype} "
+                    f"cannot be saved from a value of dtype "
+                    f"{copies[attribute.name].dtype}")
+            if copies[attribute.name].dtype.kind not in "biufSU":
+                raise ValueError(f"Attribute {attribute.name} cannot be saved "
+                                 f"without pickling.")
+
         # Just buffer all values.
-        if not self._buffer:
-            self._buffer = {
-                name: [np.copy(value)] for name, value in values.items()
-            }
-        else:
-            for name, value in values.items():
-                self._buffer[name].append(np.copy(value))
+        for name, value_copy in copies.items():
+            self._buffer.setdefault(name, []).append(value_copy)
 
     def close(self) -> None:
         """Close the shard file(-s).
